@@ -348,6 +348,7 @@ VARIANT_TEXT = {
     "reuse": "with ONE caller-owned bytearray per argument, refilled in place before each call",
     "reuselist": "with ONE caller-owned list per argument, refilled in place before each call",
     "deep": "called from 800 frames deep in the caller's stack (default recursion limit 1000)",
+    "env": "called under a low-precision truncating decimal context (process-wide setting of the caller)",
 }
 
 
@@ -663,11 +664,17 @@ def run_check(prop_id, tier="quick", seed=0, replay=None):
     xsample, xcount = [], {}
     xper, xmax = (3, 120) if tier == "thorough" else (1, 40)
     cheap = []          # (case, impl result) of fast cases, for the history-independence re-run below
+    okpool = {}         # op -> accepted cases of any cost
     for c in cases:
         _t0 = time.time()
         ir, mr = eval_case(c)
-        if time.time() - _t0 < 0.03 and ir[0] != "err" or (ir[0] == "err" and ir[1] not in ("Timeout", "Crash") and time.time() - _t0 < 0.03):
+        _dt = time.time() - _t0
+        if _dt < 0.03 and ir[0] != "err" or (ir[0] == "err" and ir[1] not in ("Timeout", "Crash") and _dt < 0.03):
             cheap.append((c, ir))
+        if ir[0] == "ok" and _dt < 3.0:           # accepted cases of any cost, a few per op (deep-stack / environment variants)
+            lst = okpool.setdefault(c["op"], [])
+            if len(lst) < 40:
+                lst.append((c, ir, _dt))
         stats["evaluations"] += 1
         stats["classes"][c["cls"]] = stats["classes"].get(c["cls"], 0) + 1
         if ir[0] == "err":
@@ -747,21 +754,28 @@ def run_check(prop_id, tier="quick", seed=0, replay=None):
             stats["extra"][kind + "_variants"] = nv
         # ... and from a deep call stack (800 frames below, default recursion limit): a sample of accepted cases of
         # every op, unless a property opts out (DEEP_STACK_OK = False for code that legitimately recurses on its input)
-        if getattr(prop, "DEEP_STACK_OK", True):
+        for kind, flag in (("deep", "DEEP_STACK_OK"), ("env", "ENV_VARIANT_OK")):
+            if not getattr(prop, flag, True):
+                continue
             nv = 0
-            byop = {}
-            for x in mixed_candidates(lambda c: True):
-                if x[1][0] == "ok" and len(byop.setdefault(x[0]["op"], [])) < (12 if tier == "thorough" else 5):
-                    byop[x[0]["op"]].append(x)
-            for (c, ir0) in [x for v in byop.values() for x in v]:
-                ir1 = impl.call(c["op"] + "@deep", c["args"], timeout=c.get("timeout"))
-                if canon and ir1[0] == "ok":
-                    ir1 = ("ok", canon(c, ir1[1]))
-                nv += 1
-                if not ((ir0[0] == ir1[0]) and (norm(ir0[1]) == norm(ir1[1]) if ir0[0] == "ok" else True)):
-                    c2 = dict(c, cls=c["cls"] + "@deep", variant="deep")
-                    disagreements.append((c2, ir1, ("ok", ir0[1]) if ir0[0] == "ok" else ("err", ir0[1])))
-            stats["extra"]["deep_stack_variants"] = nv
+            per = (10 if tier == "thorough" else 5) if kind == "deep" else (40 if tier == "thorough" else 30)
+            for op_, lst in okpool.items():
+                # the costliest accepted cases first (most work = deepest recursion if any), then a random few
+                lst2 = sorted(lst, key=lambda x: -x[2])[:2] + rs.sample(lst, min(len(lst), per))
+                seen_k = set()
+                for (c, ir0, _) in lst2:
+                    kk = case_key(c)
+                    if kk in seen_k:
+                        continue
+                    seen_k.add(kk)
+                    ir1 = impl.call(c["op"] + "@" + kind, c["args"], timeout=c.get("timeout"))
+                    if canon and ir1[0] == "ok":
+                        ir1 = ("ok", canon(c, ir1[1]))
+                    nv += 1
+                    if not ((ir0[0] == ir1[0]) and (norm(ir0[1]) == norm(ir1[1]) if ir0[0] == "ok" else True)):
+                        c2 = dict(c, cls=c["cls"] + "@" + kind, variant=kind)
+                        disagreements.append((c2, ir1, ("ok", ir0[1]) if ir0[0] == "ok" else ("err", ir0[1])))
+            stats["extra"][kind + "_variants"] = nv
         # ... and with ONE caller-owned buffer / list per argument position, refilled in place before every call:
         # whatever the library remembered about the object itself (identity- or reference-keyed caches) is stale by the
         # next call, and an argument the call modifies in place shows up as well.  Buffers: ops of BYTEARRAY_OPS;
